@@ -1,14 +1,22 @@
 """C08 — search answers depend only on the logical documents, not the layout."""
 import re
 
-GEN = False
+GEN = True             # go/extract/c08.go regenerates lean/BlugeGen/C08.lean: statement skeletons + classified facts of index/optimize.go
+                       # (dispatch, the three Finish methods), index/unadorned.go, the rewrite guards and the minSearcher wrap of
+                       # search/searcher, the offline writer (both files), Snapshot.Backup / Reader.Backup, index.OpenReader
+EXTRACT_DEPS = ("c01.go", "c07.go")   # the statement walker of c01.go; genC07: BlugeProofs.C08.ViaC07 imports BlugeProofs.C07, whose
+                       # regenerated layer lean/BlugeGen/C07.lean is brought up to date for the tree under check
+# the Gen obligations (BlugeProofs.C08.Gen) and the corollary drawn from C07 (BlugeProofs.C08.ViaC07, which depends on C07's
+# regenerated layer) are modules of their own: BlugeProofs.C08 itself does not depend on any regenerated layer
+LAKE_TARGETS = ["BlugeProofs.C08", "BlugeProofs.C08.Gen", "BlugeProofs.C08.ViaC07", "drv_c08"]
+AUDIT_MODULES = ["BlugeProofs.C08", "BlugeProofs.C08.Gen", "BlugeProofs.C08.ViaC07"]
 STATELESS = False      # a case = one corpus + its recipes (each `case opt …` line is a case of its own)
 NO_SHRINK = True       # a case is small (one corpus, <= 25 recipes) and its recipes fail for DIFFERENT reasons: the generic
                        # line-dropping shrinker drifts from one failure to another; the replay keeps the whole case and
                        # `first` names the failing recipe line
 REQUIRED_BRANCHES = [
     # build recipes that must have been exercised (driver branches, from the recipe line + the layout REACHED)
-    "plain", "merge", "reopen", "backup", "offline", "v2", "noopt", "score-none", "multisearch",
+    "plain", "merge", "reopen", "backup", "backup-partial", "backup-cancel", "backup-unopenable", "backup-resumed", "offline", "v2", "noopt", "score-none", "multisearch",
     "merged-segment", "pending-deletions", "empty-corpus", "exact-order",
     # a merge introduced BEHIND a surviving, non-merged segment that has pending deletions, searched on that very
     # root (introduceMerge computes the offsets of such a root itself; any later batch recomputes them)
